@@ -697,7 +697,10 @@ class Scanner:
             for fn, recv, _ in targets:
                 alts.append(self.inline(fn, recv, e, env))
             if len(alts) == 1:
-                out += alts[0]
+                if env.fn.qual == "pipeflow" and env.fn.module == "pipeflow.py":
+                    out.append(("phase", targets[0][0].name, alts[0]))
+                else:
+                    out += alts[0]
             else:
                 out.append(("alt", alts))
             return out
@@ -1149,9 +1152,19 @@ def replace_rec(tr, key, by):
 
 
 # --------------------------------------------------------------------------------------------- simplification
-def simplify(tr):
+def simplify(tr, top=False):
     out = []
     for e in tr:
+        if e[0] == "phase":
+            if top:
+                b = simplify(e[2])
+                if b:
+                    out.append(("phase", e[1], b))
+                continue
+            for x in simplify(e[2]):
+                if not (x[0] == "R" and out and out[-1][0] == "R" and out[-1][1] == x[1]):
+                    out.append(x)
+            continue
         if e[0] == "alt":
             alts = []
             for a in e[1]:
@@ -1189,6 +1202,8 @@ def size(tr):
             n += sum(size(a) for a in e[1])
         elif e[0] == "loop":
             n += size(e[1])
+        elif e[0] == "phase":
+            n += size(e[2])
         elif e[0] == "comp":
             n += sum(size(a) for _, a in e[1])
     return n
@@ -1226,6 +1241,11 @@ def py_scan(tr, defined, allowed, problems, dp=None, cur=None):
             dp = set.intersection(*[o[1] for o in outs])
         elif k == "loop":
             py_scan(e[1], d, allowed, problems, dp, cur)
+        elif k == "phase":
+            o = py_scan(e[2], d, allowed, problems, dp, cur)
+            if o is None:
+                return None
+            d, dp = o
         elif k == "comp":
             if cur is not None:
                 problems.append(("nested-component-loop", "", ""))
@@ -1250,11 +1270,11 @@ def scan_all(src=None):
             env = Env(pf, None, netname="net")
             sc.stack = [("pipeflow", None)]
             tr = sc.block(pf.node.body, env)
-            progs[(mode, upd, reuse)] = simplify(tr)
+            progs[(mode, upd, reuse)] = simplify(tr, top=True)
     # mode "all" is rewritten to sequential by _mode_check (C14); anything else raises in pipeflow
     sc.config = {"mode": "<other>", "reuse_internal_data": False, "transient": False,
                  "only_update_hydraulic_matrix": False}
-    tr_other = simplify(sc.block(pf.node.body, Env(pf, None, netname="net")))
+    tr_other = simplify(sc.block(pf.node.body, Env(pf, None, netname="net")), top=True)
     return sc, progs, tr_other
 
 
@@ -1301,38 +1321,55 @@ def getter_mutations(src=None):
 
 
 def inspected_option_keys(sc):
-    """constant keys by which init_options / _iteration_check / _mode_check look into the option layers"""
+    """constant keys by which init_options / _iteration_check / _mode_check look into the option layers;
+    a key held in a local name is resolved through that function's constant assignments / constant loops,
+    anything else is reported as "<dynamic>" """
     keys = set()
     for name in ("init_options", "_iteration_check", "_mode_check"):
         fn = sc.S.funcs.get(name)
         if fn is None:
             raise ScanError(name + " not found")
+        local = {}
+
+        def lit(v):
+            if isinstance(v, ast.Constant) and isinstance(v.value, str):
+                return [v.value]
+            if isinstance(v, ast.JoinedStr):
+                return ["".join(x.value if isinstance(x, ast.Constant) else "*" for x in v.values)]
+            if isinstance(v, (ast.Tuple, ast.List, ast.Set)) and all(isinstance(x, ast.Constant) for x in v.elts):
+                return [x.value for x in v.elts]
+            return None
+        for n in ast.walk(fn.node):
+            if isinstance(n, ast.Assign) and len(n.targets) == 1 and isinstance(n.targets[0], ast.Name):
+                v = lit(n.value)
+                local.setdefault(n.targets[0].id, []).append(v if v and not isinstance(n.value, (ast.Tuple, ast.Set, ast.List)) else (["<set>"] if v else None))
+                if v and isinstance(n.value, (ast.Tuple, ast.Set, ast.List)):
+                    local["$elts_" + n.targets[0].id] = [v]
+            if isinstance(n, ast.For) and isinstance(n.target, ast.Name):
+                v = lit(n.iter)
+                if v is None and isinstance(n.iter, ast.Name):
+                    vv = local.get("$elts_" + n.iter.id)
+                    v = vv[0] if vv else None
+                local.setdefault(n.target.id, []).append(v)
+
+        def resolve(a):
+            if isinstance(a, ast.Constant) and isinstance(a.value, str):
+                return [a.value]
+            if isinstance(a, ast.JoinedStr):
+                return lit(a)
+            if isinstance(a, ast.Name):
+                vs = local.get(a.id)
+                if vs and all(v is not None for v in vs):
+                    return [x for v in vs for x in v]
+            return ["<dynamic>"]
         for n in ast.walk(fn.node):
             if isinstance(n, ast.Subscript) and not (isinstance(n.value, ast.Name) and n.value.id == "net"):
-                if isinstance(n.slice, ast.Constant) and isinstance(n.slice.value, str):
-                    keys.add(n.slice.value)
-                elif isinstance(n.slice, ast.Name):
-                    keys.add("<" + n.slice.id + ">")
-                else:
-                    keys.add("<dynamic>")
+                keys.update(resolve(n.slice))
             if isinstance(n, ast.Call) and isinstance(n.func, ast.Attribute) and n.func.attr in ("get", "pop") \
                     and n.args and not (isinstance(n.func.value, ast.Name) and n.func.value.id == "net"):
-                a = n.args[0]
-                if isinstance(a, ast.Constant) and isinstance(a.value, str):
-                    keys.add(a.value)
-                elif isinstance(a, ast.Name):
-                    keys.add("<" + a.id + ">")
-                else:
-                    keys.add("<dynamic>")
+                keys.update(resolve(n.args[0]))
             if isinstance(n, ast.Compare) and any(isinstance(o, (ast.In, ast.NotIn)) for o in n.ops):
-                a = n.left
-                if isinstance(a, ast.Constant) and isinstance(a.value, str):
-                    keys.add(a.value)
-                elif isinstance(a, ast.Name):
-                    keys.add("<" + a.id + ">")
-            if isinstance(n, ast.JoinedStr):
-                keys.add("".join(v.value if isinstance(v, ast.Constant) else "*" for v in n.values))
-    # resolve the named dynamic keys of today's code: `key = f"max_iter_{mode}"`, `iter_key = "iter"`, loop var k
+                keys.update(resolve(n.left))
     return sorted(keys)
 
 
@@ -1366,13 +1403,13 @@ def coq_prog(tr, fnidx, clsidx, indent=2):
         if k == "W":
             return "Wr %d %s" % (fnidx[e[2]], cstr(e[1]))
         if k == "M":
-            return "Md %d %s" % (fnidx[e[2]], cstr(e[1]))
+            return "Seq (Rd %d %s) (Wr %d %s)" % (fnidx[e[2]], cstr(e[1]), fnidx[e[2]], cstr(e[1]))
         if k == "D":
             return "Wr %d %s" % (fnidx[e[2]], cstr(e[1]))
         if k == "C":
             return "Cp %d %s %s" % (fnidx[e[3]], cstr(e[1]), cstr(e[2]))
         if k == "AW":
-            return "Md %d %s" % (fnidx[e[3]], cstr(e[1]))
+            return "Seq (Rd %d %s) (Wr %d %s)" % (fnidx[e[3]], cstr(e[1]), fnidx[e[3]], cstr(e[1]))
         if k == "abort":
             return "Abort %d" % fnidx[e[1]]
         if k == "alt":
@@ -1427,6 +1464,8 @@ def generate(src=None):
                     walk(a)
             elif e[0] == "loop":
                 walk(e[1])
+            elif e[0] == "phase":
+                walk(e[2])
             elif e[0] == "comp":
                 for _, a in e[1]:
                     walk(a)
@@ -1456,14 +1495,50 @@ def generate(src=None):
              clist(["(%s, %s)" % (cstr(a), cstr(b)) for a, b in hyd_flag_literals(sc)]) + ".\n")
     L.append("Definition getter_mutations : list (string * string) := " +
              clist(["(%s, %s)" % (cstr(a), cstr(b)) for a, b in getter_mutations(src)]) + ".\n")
+    bodies = {}
+
+    def body_name(text):
+        if text not in bodies:
+            bodies[text] = "body_%d" % len(bodies)
+            L.append("Definition %s : prog :=\n  %s.\n" % (bodies[text], text))
+        return bodies[text]
+
+    def phase_list(tr):
+        """top-level trace -> [(phase name, Coq definition name)]"""
+        out, cur = [], []
+        for e in tr:
+            if e[0] == "phase":
+                if cur:
+                    out.append(("pipeflow", body_name(coq_prog(cur, fnidx, clsidx))))
+                    cur = []
+                out.append((e[1], body_name(coq_prog(e[2], fnidx, clsidx))))
+            else:
+                cur.append(e)
+        if cur:
+            out.append(("pipeflow", body_name(coq_prog(cur, fnidx, clsidx))))
+        return out
     for (mode, upd, reuse), tr in progs.items():
-        L.append("Definition prog_%s : prog :=\n  %s.\n" % (cfg_name(mode, upd, reuse), coq_prog(tr, fnidx, clsidx)))
-    L.append("Definition prog_other_mode : prog :=\n  %s.\n" % coq_prog(tr_other, fnidx, clsidx))
+        n = cfg_name(mode, upd, reuse)
+        pl = phase_list(tr)
+        L.append("Definition phases_%s : list (string * prog) := %s.\n" %
+                 (n, clist(["(%s, %s)" % (cstr(a), b) for a, b in pl])))
+        L.append("Definition prog_%s : prog := seq_of phases_%s.\n" % (n, n))
+    pl = phase_list(tr_other)
+    L.append("Definition prog_other_mode : prog := seq_of %s.\n" % clist(["(%s, %s)" % (cstr(a), b) for a, b in pl]))
     L.append("(* (mode, only_update_hydraulic_matrix, reuse_internal_data, program) *)")
     L.append("Definition all_progs : list (string * bool * bool * prog) := [")
     L.append(";\n".join("  (%s, %s, %s, prog_%s)" % (cstr(m), "true" if u else "false", "true" if r else "false",
                                                    cfg_name(m, u, r)) for (m, u, r) in progs))
     L.append("].\n")
+    tables = []
+    for c in sc.comp_classes:
+        m = sc.S.resolve_method(c, "table_name")
+        body = [b for b in m.node.body if not (isinstance(b, ast.Expr) and isinstance(b.value, ast.Constant))]
+        if len(body) != 1 or not isinstance(body[0], ast.Return) or not isinstance(body[0].value, ast.Constant):
+            raise ScanError("table_name of %s is not a literal" % c)
+        tables.append((clsidx[c], body[0].value.value))
+    L.append("Definition class_tables : list (nat * string) := " +
+             clist(["(%d, %s)" % (i, cstr(t)) for i, t in tables]) + ".\n")
     L.append("Definition class_names : list string := " + clist([cstr(c) for c in sc.comp_classes]) + ".\n")
     L.append("Definition normalisations : list (string * string) := " +
              clist(["(%s, %s)" % (cstr(a), cstr(b)) for a, b in sc.normalisations]) + ".\n")
